@@ -2,6 +2,7 @@ package main
 
 import (
 	"fmt"
+	"go/token"
 	"go/types"
 	"sort"
 	"strings"
@@ -259,6 +260,8 @@ func checkC14(p *Program, r *Report) {
 	c14RunInfo(p, r)
 	c14Import(p, r)
 	c14RecordLiterals(p, r)
+	treeLiteralsNotAddressable(p, r, "C14.R8")
+	c14LookupFailure(p, r)
 	// R6: snapshots used to isolate runs cover the whole scope chain
 	if em, err := buildEnvModel(p); err != nil {
 		r.Undecided("C14.R6", "model", "env", err.Error())
@@ -833,4 +836,154 @@ func c14RecordLiterals(p *Program, r *Report) {
 		r.Check(len(missing) == 0, "C14.R7", funcName(l.fn)+"|record initialised like its siblings", p.Pos(l.al.Pos()), fmt.Sprintf("%d fields set, the same as every other record", len(l.fields)),
 			fmt.Sprintf("this record does not set %v, which another place that builds a per-run record does: runs started here silently lack that state", missing))
 	}
+}
+
+// treeLiteralsNotAddressable (C14.R8, C10.R11): every reflect.Value that package parser makes for the tree is unaddressable by
+// construction (reflect.ValueOf / reflect.Zero of a non-pointer). The interpreter hands a literal's Value to the script as it
+// is; an addressable one is storage owned by the tree that `s[i] = x`, `&s` and `*p = v` write into: running a tree would then
+// change it, and two variables assigned from one literal would share a cell.
+func treeLiteralsNotAddressable(p *Program, r *Report, rule string) {
+	r.Explain("\"+rule+\" every reflect.Value package parser makes for the tree is unaddressable by construction (reflect.ValueOf / reflect.Zero of a non-pointer): a literal's storage inside the tree can never be written by a running script.")
+	sp := p.SSAPkg("parser")
+	if sp == nil {
+		r.Undecided(rule, "parser", "-", "package parser not loaded")
+		return
+	}
+	n := 0
+	isRV := func(t types.Type) bool { return t.String() == "reflect.Value" }
+	for _, fn := range SrcFuncs(sp) {
+		res := fn.Signature.Results()
+		k := 0
+		for _, b := range fn.Blocks {
+			for _, in := range b.Instrs {
+				switch x := in.(type) {
+				case *ssa.Return:
+					if res.Len() == 0 || !isRV(res.At(0).Type()) || len(x.Results) == 0 {
+						continue
+					}
+					v := x.Results[0]
+					if u, ok := v.(*ssa.UnOp); ok {
+						if _, isG := u.X.(*ssa.Global); isG {
+							continue // package-level values are decided by R5
+						}
+					}
+					k++
+					n++
+					addr, how := mayBeAddressable(v, 0)
+					r.Check(!addr, rule, fmt.Sprintf("%s|value #%d made for the tree", funcName(fn), k), p.Pos(instrPos(x)), "not addressable: "+how,
+						"the parser builds a literal's value as "+how+", which is addressable: the literal's storage inside the tree can be written by the running script (s[i] = x on a string from a literal, &s, *p = v), so executing a tree changes it and values copied from one literal share a cell")
+				case *ssa.Store:
+					if !isRV(x.Val.Type()) {
+						continue
+					}
+					fa, ok := x.Addr.(*ssa.FieldAddr)
+					if !ok {
+						continue
+					}
+					c, ok := x.Val.(*ssa.Call)
+					if !ok {
+						continue
+					}
+					if o := calleeObj(c); o == nil || o.Pkg() == nil || o.Pkg().Path() != "reflect" {
+						continue
+					}
+					_ = fa
+					k++
+					n++
+					addr, how := mayBeAddressable(c, 0)
+					r.Check(!addr, rule, fmt.Sprintf("%s|value #%d made for the tree", funcName(fn), k), p.Pos(instrPos(x)), "not addressable: "+how,
+						"a node field is given a value built as "+how+", which is addressable: the running script can write into the tree")
+				}
+			}
+		}
+	}
+	r.Floor(rule, n, 5)
+}
+
+// c14LookupFailure (R9): a failed scope lookup returns the scope package's shared, addressable nil Value next to its error. Where
+// vm puts a lookup's result straight into the result cell, the failure edge replaces it before the handler returns, so that the
+// process-wide value never becomes a script value (a script could take its address and overwrite nil for every environment).
+func c14LookupFailure(p *Program, r *Report) {
+	r.Explain("R9 where vm puts a scope lookup's value straight into the result cell, the failure edge replaces it before the handler returns.")
+	m, err := buildVMModel(p)
+	if err != nil {
+		r.Undecided("C14.R9", "model", "vm", err.Error())
+		return
+	}
+	n := 0
+	for _, fn := range m.funcsOnRecord() {
+		base := m.baseOf(fn)
+		k := 0
+		for _, b := range fn.Blocks {
+			for _, in := range b.Instrs {
+				c, ok := in.(*ssa.Call)
+				if !ok {
+					continue
+				}
+				callee := staticCallee(c)
+				if callee == nil || callee.Pkg == nil || callee.Pkg.Pkg.Path() != modPath+"/env" {
+					continue
+				}
+				res := callee.Signature.Results()
+				if res.Len() != 2 || res.At(0).Type().String() != "reflect.Value" || !isErrorType(res.At(1).Type()) {
+					continue
+				}
+				// is result 0 stored into the rv cell?
+				var rvStore *ssa.Store
+				for _, ref := range *c.Referrers() {
+					ex, ok := ref.(*ssa.Extract)
+					if !ok || ex.Index != 0 {
+						continue
+					}
+					for _, r2 := range *ex.Referrers() {
+						if st, ok := r2.(*ssa.Store); ok && m.cellAddr(st.Addr, base) == "rv" {
+							rvStore = st
+						}
+					}
+				}
+				if rvStore == nil {
+					continue
+				}
+				k++
+				n++
+				// the failure edge: the first test of the err cell / the error result against nil after the call
+				blk := rvStore.Block()
+				iff, ok := blk.Instrs[len(blk.Instrs)-1].(*ssa.If)
+				bad := "the lookup's error is not tested right after the call"
+				if ok {
+					if bo, ok := iff.Cond.(*ssa.BinOp); ok && isNilConst(bo.Y) && (bo.Op == token.NEQ || bo.Op == token.EQL) {
+						fail := blk.Succs[0]
+						if bo.Op == token.EQL {
+							fail = blk.Succs[1]
+						}
+						bad = ""
+						seen := map[*ssa.BasicBlock]bool{}
+						var visit func(x *ssa.BasicBlock)
+						visit = func(x *ssa.BasicBlock) {
+							if seen[x] || bad != "" {
+								return
+							}
+							seen[x] = true
+							for _, in2 := range x.Instrs {
+								if st, ok := in2.(*ssa.Store); ok && m.cellAddr(st.Addr, base) == "rv" {
+									return
+								}
+								if _, ok := in2.(*ssa.Return); ok {
+									bad = "on the failure edge the handler returns at " + p.Pos(instrPos(in2)) + " with the lookup's value still in the result cell"
+									return
+								}
+							}
+							for _, s2 := range x.Succs {
+								visit(s2)
+							}
+						}
+						visit(fail)
+					}
+				}
+				r.Check(bad == "", "C14.R9", fmt.Sprintf("%s|%s result #%d replaced on failure", funcName(fn), callee.Name(), k), p.Pos(c.Pos()), "the failure edge stores another value into the result cell before returning",
+					bad+": a failed lookup hands out the scope package's shared addressable nil Value, which a script can then take the address of and overwrite for every environment in the process")
+			}
+		}
+	}
+	r.Floor("C14.R9", n, 2)
 }
